@@ -16,10 +16,12 @@ V1 == JsonDeserialize("eia1.json").cases
 V2 == JsonDeserialize("eia2.json").cases
 V3 == JsonDeserialize("eia3.json").cases
 VA == JsonDeserialize("aes.json")
+ZC == JsonDeserialize("zuc_corners.json")          \* frozen corner points of the ZUC arithmetic (tools/zuccorners)
 IdxOf(s) == 1..Len(s)
 Items ==
   ({"eia1"} \X IdxOf(V1) \X {0}) \cup ({"eia2"} \X IdxOf(V2) \X {0}) \cup ({"eia3"} \X IdxOf(V3) \X {0})
   \cup ({"cmac"} \X IdxOf(VA.cmac) \X {0}) \cup ({"subkeys"} \X IdxOf(VA.subkeys) \X {0})
+  \cup ({"zuccorner"} \X {i \in IdxOf(ZC) : ZC[i].kind = "eia3"} \X {0})
   \cup ({"gfbasis"} \X (0..63) \X (0..63))
   \cup ({"gfmixed"} \X (1..24) \X (1..4))
   \cup ({"laws"} \X (0..3) \X (0..MaxBits))
@@ -54,6 +56,7 @@ ItemOK ==
     [] k = "eia3" -> LET c == V3[i] IN EIA3(c.key, c.cnt, c.bearer, c.dir, c.data, c.nbits) = c.out
     [] k = "cmac" -> LET c == VA.cmac[i] IN CM!Cmac(c.key, c.data) = c.out
     [] k = "subkeys" -> LET c == VA.subkeys[i] IN CM!SubKey1(c.key) = c.k1 /\ CM!SubKey2(c.key) = c.k2
+    [] k = "zuccorner" -> LET c == ZC[i] IN ZUC!CornerReached(c.key, EIA3iv(c.cnt, c.bearer, c.dir), c.clock, c.pred)
     [] k = "gfbasis" -> Mul64(Unit(i), Unit(j)) = XPow(i + j)
     [] k = "gfmixed" -> LET a == Pat(8, i)  b == Pat(8, i + 40 + j)  c == Pat(8, 7 * i + j) IN
                         /\ Mul64(a, b) = Mul64Def(a, b)
